@@ -41,6 +41,7 @@ type c18Case struct {
 	CRD       bool
 	Inject    bool
 	Owner     string // "" | StatefulSet | ReplicaSet | DaemonSet
+	UnionSG   int    // number of distinct default security groups in eni-config
 	Pod       *corev1.Pod
 	PNs       []*v1beta1.PodNetworking
 	NSLabels  map[string]string
@@ -274,8 +275,30 @@ func runC18(c *ctxT) {
 		if cs.CRD {
 			cfg.IPAMType = string(types.IPAMTypeCRD)
 		}
+		// the cluster defaults: the legacy single group, a list of up to ten, or both (their union may exceed ten:
+		// such a configuration must not let a marked pod through with more than ten groups)
+		sgConf := `"security_group":"sg-def"`
+		cs.UnionSG = 1
+		switch rng.Intn(6) {
+		case 0:
+			k := 1 + rng.Intn(10)
+			var l []string
+			for j := 0; j < k; j++ {
+				l = append(l, fmt.Sprintf("\"sg-l%d\"", j))
+			}
+			sgConf = `"security_groups":[` + strings.Join(l, ",") + `]`
+			cs.UnionSG = k
+		case 1:
+			k := 9 + rng.Intn(2)
+			var l []string
+			for j := 0; j < k; j++ {
+				l = append(l, fmt.Sprintf("\"sg-l%d\"", j))
+			}
+			sgConf = `"security_group":"sg-def","security_groups":[` + strings.Join(l, ",") + `]`
+			cs.UnionSG = k + 1
+		}
 		objs := []client.Object{
-			&corev1.ConfigMap{ObjectMeta: metav1.ObjectMeta{Name: "eni-config", Namespace: "kube-system"}, Data: map[string]string{"eni_conf": `{"version":"1","vswitches":{"zone-a":["vsw-def-a"],"zone-b":["vsw-def-b"]},"security_group":"sg-def"}`}},
+			&corev1.ConfigMap{ObjectMeta: metav1.ObjectMeta{Name: "eni-config", Namespace: "kube-system"}, Data: map[string]string{"eni_conf": `{"version":"1","vswitches":{"zone-a":["vsw-def-a"],"zone-b":["vsw-def-b"]},` + sgConf + `}`}},
 			&corev1.Namespace{ObjectMeta: metav1.ObjectMeta{Name: "default", Labels: cs.NSLabels}},
 		}
 		for _, pn := range cs.PNs {
@@ -340,7 +363,7 @@ func c18Judge(c *ctxT, cs *c18Case, raw []byte, resp admission.Response) {
 		return
 	}
 	if !resp.Allowed {
-		if cs.Expect == "marked" {
+		if cs.Expect == "marked" && cs.UnionSG <= 10 { // (a default with more than ten groups may be refused)
 			r.Violate("C18.valid-pod-refused", cs.Scenario, fmt.Sprintf("well-formed admission refused: %+v", resp.Result), rep)
 		}
 		return
